@@ -115,4 +115,16 @@ theorem judge_run (ops : List Op) (hok : OpsOK ops = true) (st : Option Matcher)
               Bool.and_eq_true]
             exact ⟨by decide, ih hok' (some m') (some p) hmi'⟩
 
+/-- compiling and matching one series inside the domain gives the reference value -/
+theorem matchSeries_spec (p : Pred) (name : Bytes) (tags : Tags)
+    (hp : PredWF p = true) (hs : SeriesWF name tags = true) (hk : KeyOK name tags = true) :
+    matchSeries p name tags = some (evalPred name tags p) := by
+  simp only [KeyOK, Bool.and_eq_true, Bool.not_eq_true', List.contains_eq_mem,
+    decide_eq_false_iff_not] at hk
+  obtain ⟨⟨⟨hnt, h61⟩, htags⟩, hsep⟩ := hk
+  obtain ⟨m, hm, hinv⟩ := newMatcher_spec p
+  obtain ⟨m', hm', _⟩ := matches_spec p m hinv (seriesKey name tags) name tags
+    (cutFieldSep_of_not_hasSep _ hsep) hp hs hnt h61 htags
+  simp [matchSeries, hm, hm']
+
 end Influx.Model.DelPred
